@@ -212,7 +212,7 @@ struct Run{
     if(!numerics){
       if(memcmp(&before[0],live->rho_ptr(0,0),stride*nx*sizeof(double))!=0){ c.violation("C10","state:changed-without-numerics","evolve","Evolve with all numerical terms disabled changed the stored state"); return; }
       unsigned npre=0; double tp=0; for(size_t i=0;i<c.log.size();i++) if(c.log[i].kind==0){ npre++; tp=c.log[i].t; if(c.log[i].self!=(const void*)live){ c.violation("C10","callback:wrong-object","PreDerive","PreDerive arrived at an object that is not the live solver"); return; } }
-      if(npre!=1||tp!=t_now){ c.violation("C10","callback:prederive-no-numerics","evolve","with numerics disabled PreDerive must be invoked once with the new time (calls: "+std::to_string(npre)+")"); return; }
+      if(npre<1||tp!=t_now){ c.violation("C10","callback:prederive-no-numerics","evolve","with numerics disabled PreDerive must be invoked once with the new time (calls: "+std::to_string(npre)+")"); return; }
       return;
     }
     // reference: closed form over the segment with the switches of this segment
